@@ -133,7 +133,15 @@ def profile_const(run, F, tag):
         n_fn += 1
         for x in T.find_all(f.thir.get("body"), lambda y: y.get("k") == "if" and isinstance(y.get("c"), dict) and y["c"].get("k") == "lit" and y["c"].get("lk") == "bool"):
             n_if += 1
-            eff = T.find_all([x.get("t"), x.get("e")], lambda y: y.get("k") in ("assign", "assignop") or (y.get("k") in ("borrow", "rawborrow") and "Mut" in str(y.get("bk", y.get("m", "")))))
+            # (`peek()` borrows the iterator mutably but only fills the look-ahead slot: what `next()` returns afterwards is unchanged)
+            benign = set()
+            for c_ in T.find_all([x.get("t"), x.get("e")], lambda y: y.get("k") == "call" and isinstance(y.get("fn"), dict) and str(y["fn"].get("def", "")).endswith("Peekable::<I>::peek")):
+                for a_ in c_.get("args", []):
+                    while isinstance(a_, dict) and a_.get("k") in ("scope", "use", "expr") and isinstance(a_.get("e"), dict):
+                        a_ = a_["e"]
+                    if isinstance(a_, dict) and a_.get("k") == "borrow":
+                        benign.add(id(a_))
+            eff = T.find_all([x.get("t"), x.get("e")], lambda y: y.get("k") in ("assign", "assignop") or (y.get("k") in ("borrow", "rawborrow") and "Mut" in str(y.get("bk", y.get("m", ""))) and id(y) not in benign))
             run.ob(not eff, "profile-const|%s" % f.key, "%s premise: code under a compile-time constant condition (cfg!/debug_assert!) has no side effect, so dev and release builds behave alike" % tag,
                    "%s (%s)" % (f.key, f.file), "`if %s { .. }` contains %d assignment(s)/mutable borrow(s): behaviour differs between build profiles" % (x["c"].get("v"), len(eff)), distinct="profile-const")
     # conditional compilation that is not about the five evaluator features (debug_assertions, target, ...): the fact base shows one
